@@ -90,6 +90,12 @@ def scenarios():
     # an endpoint gives up connecting (timeout 0, peer absent) and never comes back: the peer must not "connect" to its ghost
     S["peer-gave-up"] = {"alice": [("open_t", "s", "bob", 0, 0.0)],
                          "bob": [("vsleep", 1.0), ("open", "s", "alice", 0, False), ("send", "s", "b1")]}
+    # a complete session: both sides open, talk, close
+    S["open-talk-close"] = {"alice": [("open", "s", "bob", 0, False), ("recv", "s"), ("close", "s")],
+                            "bob": [("open", "s", "alice", 0, False), ("send", "s", "b1"), ("close", "s")]}
+    # a callback endpoint whose connection-lost callback uses its own socket
+    S["callback-uses-socket-on-connection-loss"] = {"alice": [("open", "s", "bob", 0, False), ("send", "s", "a1"), ("close", "s")],
+                                                    "bob": [("open", "s", "alice", 0, 2), ("pause", 4)]}
     # messages of length zero are messages too
     S["empty-message"] = {"alice": [("open", "s", "bob", 0, False), ("send", "s", ""), ("send", "s", "a2")],
                           "bob": [("open", "s", "alice", 0, False), ("recv", "s"), ("recv", "s"), ("recv_nb", "s")]}
@@ -150,7 +156,7 @@ class Endpoint:
                     continue
                 s.record(("call", me, "open", sn, remote, sid, cb))
                 try:
-                    cls = _callback_class(s, me, sn) if cb else ThreadSocket
+                    cls = _callback_class(s, me, sn, active=(cb == 2)) if cb else ThreadSocket
                     sock = cls(me, remote, socket_id=sid, timeout=TIMEOUT, use_callbacks=cb) if not cb else cls(me, remote, socket_id=sid, timeout=TIMEOUT)
                     self.socks[sn] = sock
                     self.shared[(me, sn)] = sock
@@ -279,7 +285,7 @@ def _payload_of(m):
     return m
 
 
-def _callback_class(s, me, sn):
+def _callback_class(s, me, sn, active=False):
     from netqasm.sdk.classical_communication.thread_socket.socket import ThreadSocket
 
     class CB(ThreadSocket):
@@ -291,6 +297,13 @@ def _callback_class(s, me, sn):
 
         def conn_lost_callback(self):
             s.record(("conn_lost", me, sn))
+            if active:
+                # a callback endpoint looks at its own socket when it learns that the peer has left
+                try:
+                    self.recv(block=False)
+                except RuntimeError:
+                    pass
+                s.record(("conn_lost_handled", me, sn))
     return CB
 
 
@@ -307,6 +320,8 @@ def run_schedule(script, chooser, step_bound=6000):
         for name, ops in script.items():
             s.spawn(name, Endpoint(name, ops, s, keep, shared).body)
         s.run()
+        import netqasm.sdk.classical_communication.thread_socket.socket_hub as hubmod
+        s.hub_end = (sorted(getattr(hubmod._socket_hub, "_open_sockets", ())), sorted(getattr(hubmod._socket_hub, "_remote_sockets", ())))
     finally:
         vs._installed["sched"] = None
     # Sockets die outside the schedule. Their __del__ disconnects *by key* on the global hub, and the same keys are used
@@ -329,11 +344,23 @@ class _DeadHub:
 
 def judge(script, s: vs.Scheduler):
     """Returns error string or None. History checker over s.log."""
+    if s.aborted == "deadlock on the hub lock":
+        return ("every endpoint that is left is blocked on the hub's lock (a thread waits for a lock it already holds: a hub "
+                "method was entered again from inside a locked region, e.g. from a connection-lost callback)")
     if s.aborted:
         return None   # inconclusive, counted by the caller
     for name, e in s.errors.items():
         return f"endpoint {name} crashed with {type(e).__name__}: {e}"
     log = s.log
+    # after every socket that was opened has been closed again by its endpoint, the hub must not remember any of them (a key
+    # left behind is found by the next socket opened towards it, which then "connects" to nobody)
+    opened = [(ev[1], ev[3]) for ev in log if ev[0] == "ret" and ev[2] in ("open", "open_t") and ev[4] == "ok"]
+    closed = [(ev[1], ev[3]) for ev in log if ev[0] == "ret" and ev[2] == "close"]
+    if opened and sorted(opened) == sorted(closed) and not any(op[0] in ("bopen", "use") for ops in script.values() for op in ops):
+        left = getattr(s, "hub_end", ((), ()))
+        if left[0] or left[1]:
+            return (f"every socket was opened and closed again by its endpoint, yet the hub still lists open sockets {left[0]} and "
+                    f"rendezvous marks {left[1]}")
     # rendezvous with a zero / small connect timeout: a peer that is already waiting must be found
     for ev in log:
         if ev[0] == "ret" and ev[2] == "open_t" and ev[4] != "ok" and ev[5]:
@@ -599,7 +626,7 @@ def run_case(ctx, case):
     def account(s, err):
         ctx.count("schedules")
         ctx.count("yield_points", s.steps)
-        if s.aborted:
+        if s.aborted and not err:
             ctx.count("inconclusive_schedules")
             ctx.count("inconclusive_" + s.aborted.replace(" ", "_"))
             return
